@@ -136,3 +136,115 @@ def engine():
 
 CONTRACTS = [ExportSave(), NextName(), SweepVariable()]
 VERIFY = CONTRACTS
+
+
+# ------------------------------------------------------------------------------------------------ dispatch functions
+from hdl21.literal import Literal as _Literal
+
+CTRL_KINDS = {"include": (data.Include, "hdl21.sim.proto:export_include"), "lib": (data.Lib, "hdl21.sim.proto:export_lib"),
+              "save": (data.Save, "hdl21.sim.proto:export_save"), "meas": (data.Meas, "hdl21.sim.proto:export_meas"),
+              "param": (data.Param, "hdl21.sim.proto:export_param"), "literal": (_Literal, "hdl21.proto.exporting:export_literal")}
+AN_KINDS = {"op": (data.Op, "export_op"), "dc": (data.Dc, "export_dc"), "ac": (data.Ac, "export_ac"),
+            "tran": (data.Tran, "export_tran"), "noise": (data.Noise, "export_noise"),
+            "sweep": (data.SweepAnalysis, "export_sweep_analysis"), "monte": (data.MonteCarlo, "export_monte"),
+            "custom": (data.CustomAnalysis, "export_custom_analysis")}
+DISPATCH_SCHEMA = {k: "ref" for k in list(CTRL_KINDS) + list(AN_KINDS)}
+
+
+class Leaf(Contract):
+    """a leaf exporter seen from its dispatcher: returns a message (or text), may refuse its argument"""
+    pure = True
+    raises = (TypeError, ValueError)
+    returns = "ref"
+
+    def __init__(self, key, returns="ref"):
+        self.key = key
+        self.returns = returns
+        self.result_classes = (vsp.Control,)
+
+    def scenarios(self, eng):
+        return []
+
+
+class ExportControl(Contract):
+    """export_control(ctrl): total over the six control kinds, each wrapped in the like-named Control variant built
+    from that very object by its own exporter; anything else is refused with TypeError."""
+    key = "hdl21.sim.proto:export_control"
+    props = ("C17",)
+    pure = False
+    raises = (TypeError, ValueError)
+    returns = "ref"
+
+    def scenarios(self, eng):
+        for kind, (cls, _) in CTRL_KINDS.items():
+            def setup(eng, st, cls=cls):
+                return {"ctrl": sym_ref(st, "ctrl", (cls,))}
+            yield Scenario(kind, setup)
+
+        def bad(eng, st):
+            return {"ctrl": sym_ref(st, "ctrl", (data.Options, data.Op, data.Sim))}
+        s = Scenario("not-a-control", bad)
+        s.expect_raise = True
+        yield s
+
+    def p_variant(self, eng, st0, st, a, res):
+        cls = eng.classes_of(st0, a.ctrl)[0]
+        kind = next(k for k, (c, _) in CTRL_KINDS.items() if issubclass(cls, c))
+        callee = CTRL_KINDS[kind][1]
+        calls = [c for c in st.calls if c[0] == callee]
+        if len(calls) != 1 or list(vars(calls[0][1]).values())[0] is not a.ctrl:
+            return False
+        others = [st.heap.get(k, res.z) == NULL for k in CTRL_KINDS if k != kind and k != "literal"]
+        if kind == "literal":
+            return True      # the literal variant carries text, not a sub-message
+        return z3.And([st.heap.get(kind, res.z) != NULL] + others)
+    posts = property(lambda self: [("like-named-variant", self.p_variant)])
+    must_raise = property(lambda self: [("not-a-control", lambda eng, st0, a: not any(
+        issubclass(eng.classes_of(st0, a.ctrl)[0], c) for c, _ in CTRL_KINDS.values()))])
+
+
+class ExportAnalysis(Contract):
+    """SimProtoExporter.export_analysis(an): total over the eight analysis kinds, each in the like-named variant."""
+    key = "hdl21.sim.proto:SimProtoExporter.export_analysis"
+    props = ("C17",)
+    pure = False
+    raises = (TypeError, ValueError)
+    returns = "ref"
+
+    def scenarios(self, eng):
+        for kind, (cls, _) in AN_KINDS.items():
+            def setup(eng, st, cls=cls):
+                return {"self": sym_ref(st, "self", (SimProtoExporter,)), "an": sym_ref(st, "an", (cls,))}
+            yield Scenario(kind, setup)
+
+        def bad(eng, st):
+            return {"self": sym_ref(st, "self", (SimProtoExporter,)), "an": sym_ref(st, "an", (data.Save, data.Options))}
+        s = Scenario("not-an-analysis", bad)
+        s.expect_raise = True
+        yield s
+
+    def p_variant(self, eng, st0, st, a, res):
+        cls = eng.classes_of(st0, a.an)[0]
+        kind = next(k for k, (c, _) in AN_KINDS.items() if issubclass(cls, c))
+        callee = "hdl21.sim.proto:SimProtoExporter." + AN_KINDS[kind][1]
+        calls = [c for c in st.calls if c[0] == callee]
+        if len(calls) != 1 or list(vars(calls[0][1]).values())[1] is not a.an:
+            return False
+        others = [st.heap.get(k, res.z) == NULL for k in AN_KINDS if k != kind]
+        return z3.And([st.heap.get(kind, res.z) != NULL] + others)
+    posts = property(lambda self: [("like-named-variant", self.p_variant)])
+    must_raise = property(lambda self: [("not-an-analysis", lambda eng, st0, a: not any(
+        issubclass(eng.classes_of(st0, a.an)[0], c) for c, _ in AN_KINDS.values()))])
+
+
+def dispatch_engine():
+    leaves = [Leaf(k, "ref" if not k.endswith("export_literal") else "str") for _, k in CTRL_KINDS.values()]
+    leaves += [Leaf("hdl21.sim.proto:SimProtoExporter." + m) for _, m in AN_KINDS.values()]
+    schema = dict(SCHEMA_EXTRA)
+    schema.update(DISPATCH_SCHEMA)
+    schema["literal"] = "str"
+    eng = mk_engine(contracts=leaves + [ExportControl(), ExportAnalysis()], schema_extra=schema)
+    return eng
+
+
+VERIFY_DISPATCH = [ExportControl(), ExportAnalysis()]
